@@ -16,14 +16,14 @@ func concProp(id string, quick, thorough int, rule string) {
 const concRule = "one case = one generated scenario (container kind, hash mode, table knobs, prefill, set-up, 1-3 phases of 2-4 tasks x 1-8 operations, strategy, delay/stall faults) executed under the seeded scheduler; distinct = distinct hash of the full event trace (task, operation kind, address ordinal at every synchronisation step); non-trivial = at least two operations of different tasks overlapped in the phase (a context switch landed between the first and last step of an operation)"
 
 func init() {
-	concProp("C02", 200000, 200000, concRule+"; oracle: porcupine against the frozen-clock TTL-map model + sequential read-out")
+	concProp("C02", 200000, 200000, concRule+"; oracle: porcupine against the TTL-map model (frozen clock; in 30% of the phases a task ticks the clock by nanoseconds and the timed model applies) + sequential read-out")
 	concProp("C03", 300000, 300000, concRule+"; oracle: porcupine against map[string]interface{} + sequential read-out")
 	concProp("C04", 300000, 300000, concRule+"; oracle: porcupine against map[K]V + sequential read-out; key types int, string, struct, any; default and adversarial hashers")
 	concProp("C05", 250000, 250000, concRule+"; workloads: racers on one key / increment chains; oracle: exactly-one-winner, user-function call counts, distinct contiguous old values")
 	concProp("C06", 200000, 200000, concRule+"; oracle: evicted-callback ledger rules R1-R5")
 	concProp("C07", 150000, 150000, concRule+"; oracle: traversal rules (no duplicate, early stop, stably-present keys visited, visits linearizable as loads)")
-	concProp("C08", 250000, 250000, concRule+"; oracle: Size/Count vs Range visits vs keys found at every quiescent point")
-	concProp("C13", 300000, 300000, concRule+"; oracle: scheduler deadlock / livelock proof")
+	concProp("C08", 250000, 250000, concRule+"; oracle: Size/Count vs Range visits vs keys found at every quiescent point; leftovers of completed DeleteExpired and Clear calls")
+	concProp("C13", 300000, 300000, concRule+"; oracle: scheduler deadlock / livelock proofs / per-call step bound; 12% of cache cases under a running clock")
 	concProp("C16", 300000, 300000, concRule+"; fault: a victim writer is frozen for the rest of the run; oracle: readers return without joining a wait set, within a linear bound of own steps, results linearizable with the victim pending")
 }
 
@@ -42,7 +42,7 @@ const seqRule = "one case = one generated call sequence (5-60 calls quick, up to
 func init() {
 	register(&PropDef{ID: "C01", Runs: map[string]int{"quick": 300000, "thorough": 300000}, Rule: seqRule,
 		Gen: func(seed uint64, tier string) *Case { return &Case{Seq: genSeqCache("C01", seed, tier, CacheKinds)} }})
-	register(&PropDef{ID: "C09", Runs: map[string]int{"quick": 300000, "thorough": 300000}, Rule: seqRule + "; C09: TTL and default-TTL arguments additionally drawn from all int64 values; oracle: exact reported instants and remaining TTLs",
+	register(&PropDef{ID: "C09", Runs: map[string]int{"quick": 300000, "thorough": 300000}, Rule: seqRule + "; C09: TTL and default-TTL arguments additionally drawn from all int64 values; oracle: exact reported instants and remaining TTLs; 12% of cases are concurrent phases (default TTL changed while entries are stored with it; the stored instant must follow a default in force during the call)",
 		Gen: func(seed uint64, tier string) *Case { return &Case{Seq: genSeqCache("C09", seed, tier, CacheKinds)} }})
 	register(&PropDef{ID: "C12", Runs: map[string]int{"quick": 150000, "thorough": 150000}, Rule: "one case = one generated call sequence driven into both twins (Cache and CacheOf[string,any], or Map and MapOf[string,any]) in one simulated world (one virtual clock, same tick instants); every return value, callback report (multiset per call), traversal set and count is compared pairwise; distinct = distinct event-trace hash; non-trivial = at least one eviction report or janitor tick (caches) or one table resize (maps)",
 		Gen: func(seed uint64, tier string) *Case { return &Case{Seq: genTwin(seed, tier)} }})
@@ -67,7 +67,7 @@ func init() {
 
 func init() {
 	register(&PropDef{ID: "C10", Runs: map[string]int{"quick": 400000, "thorough": 400000},
-		Rule: "one case = one key type of a 37-type catalogue (every comparable kind, structs with padding / blank / interface / nested fields, any and a non-empty interface holding each of them and nil) with a pool of equal-but-differently-built values, a random call sequence on MapOf[K,int64] or CacheOf[K,int64] mirrored on a builtin map[K]int64, under simulator-chosen table seeds, min table length and hash mode (native / deterministic / forced collisions), pointees mutated in between; distinct = distinct event-trace hash; every case is non-trivial (the pools always contain equal-but-differently-built keys)",
+		Rule: "one case = one key type of a 46-type catalogue (every comparable kind, structs with padding / blank / interface / nested fields, any and a non-empty interface holding each of them and nil) with a pool of equal-but-differently-built values, a random call sequence on MapOf[K,int64] or CacheOf[K,int64] mirrored on a builtin map[K]int64, under simulator-chosen table seeds, min table length and hash mode (native / deterministic / forced collisions), pointees mutated in between; distinct = distinct event-trace hash; every case is non-trivial (the pools always contain equal-but-differently-built keys)",
 		Gen:  genKeys})
 	register(&PropDef{ID: "C15", Runs: map[string]int{"quick": 150000, "thorough": 150000},
 		Rule: "(a) one case = a cache built by a random constructor variant with interval in {negative, 0, 1 ns .. 1 h}, entries with various TTLs, then only clock advances and Count() polls (no call names a key): checked against the TTL model (janitor passes remove and report exactly the expired entries; no pass and no Count change when interval <= 0; nothing uncleaned two intervals after its instant); (b) 1% of cases: n caches are created, filled with finalizer-carrying payloads and dropped, then real GC rounds alternate with scheduler pumps until every janitor task has ended and every payload was collected (bound 30 s); distinct = distinct event-trace hash; non-trivial = a clock advance landed within 1 ns of an expiration instant or an expired entry was touched, all (b) cases",
@@ -79,7 +79,7 @@ func init() {
 			return &Case{Seq: genSeqCache("C15", seed, tier, CacheKinds)}
 		}})
 	register(&PropDef{ID: "C14", Runs: map[string]int{"quick": 100000, "thorough": 100000},
-		Rule: concRule + "; built with -race; values are pointers to structs initialised by plain writes just before the store and read field by field (checksum) by every task that obtains them; 2-8 tasks; oracle: zero race reports whose stacks include the code under test or the payload accessors, intact payloads",
+		Rule: concRule + "; built with -race; values are pointers to structs initialised by plain writes just before the store and read field by field (checksum) by every task that obtains them; 2-8 tasks; 30% with two containers; 0.4% of cases are caches dropped and collected by real GC rounds while their janitors tick; oracle: zero race reports whose stacks include the code under test or the payload accessors, intact payloads",
 		Gen: func(seed uint64, tier string) *Case {
 			r := simrtRNG(seed ^ 0xC14)
 			if r.Float64() < 0.004 {
